@@ -209,6 +209,25 @@ func TestTagStage(t *testing.T) {
 		}
 		static := rapid.SliceOfN(rapid.SampledFrom([]string{"static:1", "env:prod", "host:h1", "k", "static:1", "region:us"}), 0, 4).Draw(t, "static-tags")
 		points := rapid.SliceOfN(metricGen(), 0, 14).Draw(t, "datapoints")
+		// twins: the same datapoint once more with one of its tags repeated - a different key on arrival, the same series
+		// after de-duplication, whatever the filters and static tags are (also with none of either)
+		if rapid.IntRange(0, 2).Draw(t, "duplicate-tag-twins") == 0 {
+			if rapid.Bool().Draw(t, "plain-stage") {
+				specs, static, filters = nil, nil, nil
+			}
+			var twins []*gostatsd.Metric
+			for _, m := range points {
+				if len(m.Tags) > 0 && rapid.Bool().Draw(t, "twin") {
+					c := gen.CopyMetric(m)
+					c.Tags = append(c.Tags, c.Tags[rapid.IntRange(0, len(c.Tags)-1).Draw(t, "repeated-tag")])
+					if c.Type != gostatsd.SET {
+						c.Value = float64(rapid.IntRange(1, 9).Draw(t, "twin-value"))
+					}
+					twins = append(twins, c)
+				}
+			}
+			points = append(points, twins...)
+		}
 		// the incoming map: series keyed by their (duplicate-carrying) tag lists
 		in := gostatsd.NewMetricMap(rapid.Bool().Draw(t, "forwarded"))
 		for _, m := range points {
